@@ -15,7 +15,7 @@ def run(args):
             p = subprocess.run(["patch","-p1","--no-backup-if-mismatch","-s","-i",patch], cwd=d, capture_output=True, text=True)
             if p.returncode: return name, None
         fired = {}
-        for pid in PIDS:
+        for pid in ([name.split("-")[0]] if os.environ.get("OWN_ONLY") else PIDS):
             keys, err = failing_keys(pid, d)
             new = sorted(k for k in keys if k not in baseline[pid])
             if new: fired[pid] = [f"{r}[{k}]" for r,k in new[:2]]
